@@ -89,3 +89,34 @@ Proof.
   - apply frame_before.
   - apply frame_after.
 Qed.
+
+(* ------------------------------------------------------------------------- *)
+(* symmetry relabelling: a grain and its symmetry-equivalent copy k q are NOT at angle 0 *)
+(* ------------------------------------------------------------------------- *)
+Lemma relabel_after :
+  0 < @pair_angle NumR Dropped ortho_ops_exact (hmul fr_q2 fr_r) fr_r.
+Proof.
+  rewrite pair_angle_values.
+  assert (Hne : angle_values Dropped ortho_ops_exact (hmul fr_q2 fr_r) fr_r <> [])
+    by (apply angle_values_nonempty; discriminate).
+  destruct (lmin_spec _ Hne) as [A _].
+  apply in_angle_values in A as (s & t & Hs & Ht & E). rewrite E. clear E Hne.
+  apply ang1_pos.
+  cbn [In ortho_ops_exact] in Hs, Ht.
+  repeat (destruct Hs as [<-|Hs]); try destruct Hs;
+    repeat (destruct Ht as [<-|Ht]); try destruct Ht;
+    cbv [apply_op hmul qprod qdot qx qy qz qw fst snd fr_q1 fr_q2 fr_r]; numR; lra.
+Qed.
+
+Theorem dropped_symmetry_dependent :
+  exists q u : Q4, qnorm2 q = 1 /\ qnorm2 u = 1 /\
+    In (@Rot NumR u) (@symmetry_operations NumR Orthorhombic) /\
+    @pair_angle NumR Dropped (@symmetry_operations NumR Orthorhombic) q q = 0 /\
+    0 < @pair_angle NumR Dropped (@symmetry_operations NumR Orthorhombic) (hmul u q) q.
+Proof.
+  exists fr_r, fr_q2. rewrite ortho_ops_exact_eq.
+  repeat split; try (unfold qnorm2, fr_q2, fr_r; qunf; lra).
+  - cbn; tauto.
+  - apply pair_angle_self; [cbn; tauto|]. unfold qnorm2, fr_r; qunf; lra.
+  - apply relabel_after.
+Qed.
